@@ -30,6 +30,18 @@ CLAIMED = {
         technique="Coq proof (amortised cost in a cost monad) + exact step-count correspondence"),
 }
 
+CLAIMED["C12"] = dict(
+    category="proof",
+    text="Coq theorems C12_*: for every 16-bit header word and every argument value, set_flags changes exactly the bits QR AA TC RD RA Z AD CD "
+         "(testbit characterisation for every bit index, upper half of the argument ignored, opcode/rcode kept), set_response changes bit 15 "
+         "only, set_rcode/set_opcode (all 256x256 byte/argument pairs, exhaustive evaluation inside Coq) change only their nibble/field and the "
+         "getters return the stored value truncated; at packet level only bytes 2-3 (0-1 for the id) change and getters read the value back; "
+         "no setter panics on a packet with a header. Correspondence: all 65536 flag words, five setters each, every getter and the raw "
+         "bytes compared with the model and with an independent oracle.",
+    ref="6/C12",
+    note="trusted: as C01; arguments have the Rust types (u8/u16/u32); the EDNS half of flags() is covered by C04",
+    technique="Coq proof (bit-vector identities via N.testbit; finite sweeps lifted by forallb_forall) + exhaustive-word correspondence")
+
 PENDING_REASON = "check not built yet in this round (model/theorems in progress; see DESIGN.md section 11 for the order of work)"
 
 
